@@ -7,17 +7,18 @@ from props.c13 import state_eq, STATE
 ID = "C14"
 TITLE = "Sequence files parse to exactly their residues"
 ASSUMPTIONS = [
-    "open(...).readlines() is replaced by a stub returning L symbolic lines of M symbolic characters each (printable ASCII 0x20-0x7E), every line ending in '\\n' "
+    "open(...).readlines() is replaced by a stub returning L symbolic lines of M symbolic characters each (printable ASCII 0x20-0x7E plus tab, VT, FF), every line ending in '\\n' "
     "except, optionally, the last; OS-level I/O errors are not modelled",
     "reference grammar: a line is blank, a header (first non-space character '>'), or a sequence line; a sequence line may hold the 20 letters, spaces, digits and '*'; "
     "at most one header; at most one '*', which must be the last residue character of the file",
-    "nothing is asserted where the property is silent: a header that follows sequence content, and files without any residue",
+    "nothing is asserted where the property is silent: a header that follows sequence content, files without any residue, non-space whitespace at the ends of a line",
+    "the parser object used has just rejected another file that had a header (parser objects are documented as stateless)",
     "'answers every query like an object built from that string' is established as equality of the complete object state with an object constructed from the parsed string",
 ]
 OUTSIDE = ["more / longer lines than the bound", "control characters and non-ASCII bytes inside lines", "I/O failures"]
 SHAPES = {"quick": [(1, 1), (1, 2), (1, 3), (2, 1), (2, 2), (3, 1)], "thorough": [(1, 1), (1, 2), (1, 3), (1, 4), (2, 1), (2, 2), (2, 3), (3, 1), (3, 2)]}
 ITEM_TIMEOUT = {"quick": 900, "thorough": 3400}
-ALPHA = [chr(i) for i in range(0x20, 0x7F)]
+ALPHA = [chr(i) for i in range(0x20, 0x7F)] + ["\t", "\x0b", "\x0c"]
 AIDX = {c: i for i, c in enumerate(ALPHA)}
 SENT = -1
 
@@ -37,6 +38,8 @@ def cls_of(ch):
         return "X"
     if ch == ">":
         return "H"
+    if ch in "\t\x0b\x0c":
+        return "W"      # whitespace other than the space: removed by strip() at the ends of a line, an 'other character' inside it
     return "O"
 
 
@@ -45,7 +48,7 @@ def items(tier, seed):
     for (L, M) in SHAPES[tier]:
         # split by the behaviour class of the first two characters of the file to spread paths over processes
         k = min(2, L * M)
-        for pre in itertools.product("ASDXHO", repeat=k):
+        for pre in itertools.product("ASDXHOW", repeat=k):
             for nl in (True, False):
                 out.append(dict(name="L%d_M%d_%s_%s" % (L, M, "".join(pre), "nl" if nl else "nonl"), L=L, M=M, prefix="".join(pre), nl=nl))
     return out
@@ -77,16 +80,21 @@ def reference(vs):
     returns (valid, unspecified, expected guarded list [(guard, code of letter)])"""
     L = len(vs)
     header, seqline, bad, blank = [], [], [], []
+    wsend = []
     for l in range(L):
         row = vs[l]
         M = len(row)
-        allspace_before = [z3.And(*[in_cls(row[i], "S") for i in range(j)]) if j else z3.BoolVal(True) for j in range(M)]
-        hdr = z3.Or(*[z3.And(allspace_before[j], in_cls(row[j], "H")) for j in range(M)])
-        blk = z3.And(*[in_cls(c, "S") for c in row])
+        ws = [in_cls(c, "SW") for c in row]
+        inside = [z3.And(z3.Or(*[z3.Not(ws[i]) for i in range(j + 1)]), z3.Or(*[z3.Not(ws[k]) for k in range(j, M)])) for j in range(M)]
+        allws_before = [z3.And(*[ws[i] for i in range(j)]) if j else z3.BoolVal(True) for j in range(M)]
+        hdr = z3.Or(*[z3.And(allws_before[j], in_cls(row[j], "H")) for j in range(M)])
+        blk = z3.And(*ws)
         header.append(hdr)
         blank.append(blk)
         seqline.append(z3.And(z3.Not(hdr), z3.Not(blk)))
-        bad.append(z3.Or(*[in_cls(c, "OH") for c in row]))
+        bad.append(z3.Or(*[z3.And(inside[j], in_cls(row[j], "OHW")) for j in range(M)]))
+        # non-space whitespace at the ends of a line is removed by strip(): the property does not speak about it
+        wsend.append(z3.Or(*[z3.And(z3.Not(inside[j]), in_cls(row[j], "W")) for j in range(M)]))
     nheaders = count(header)
     any_bad = z3.Or(*[z3.And(seqline[l], bad[l]) for l in range(L)])
     # residue characters (letters and stars) in file order
@@ -100,7 +108,7 @@ def reference(vs):
     letters = [(z3.And(g, in_cls(c, "A")), c) for g, c in res]
     nletters = count(g for g, _ in letters)
     content_before_header = z3.Or(*[z3.And(header[l], z3.Or(*[seqline[k] for k in range(l)])) for l in range(1, L)]) if L > 1 else z3.BoolVal(False)
-    unspecified = z3.Or(nletters == 0, content_before_header)
+    unspecified = z3.Or(nletters == 0, content_before_header, *wsend)
     return valid, unspecified, letters
 
 
@@ -133,7 +141,7 @@ def run_item(item):
     flat = [v for row in vs for v in row]
     for v, cl in zip(flat, item["prefix"]):
         I.solver.add(in_cls(v, cl))
-    I.stubs[open] = lambda I_, filename, *a, **k: FakeFile(lines)
+    I.stubs[open] = lambda I_, filename, *a, **k: FakeFile([">bad\n", "A?\n"]) if filename == "<rejected file>" else FakeFile(lines)
     valid, unspecified, letters = reference(vs)
 
     def text_of(m):
@@ -143,7 +151,13 @@ def run_item(item):
         return dict(text=text_of(m))
 
     def thunk():
-        parsed = I.call(I.call(SequenceFileParser, [], {}).parseSeqFile, ["<symbolic file>"], {})
+        # the parser object is reused: it rejected another file (with a header) just before
+        parser = I.call(SequenceFileParser, [], {})
+        try:
+            I.call(parser.parseSeqFile, ["<rejected file>"], {})
+        except PyRaise:
+            pass
+        parsed = I.call(parser.parseSeqFile, ["<symbolic file>"], {})
         return parsed, None
 
     def thunk_obj():
@@ -189,13 +203,28 @@ def run_item(item):
     return finish(I, res)
 
 
+def reused_parser(tmpdir_file):
+    """a parser object that has just rejected a file with a header"""
+    from localcider.backend.seqfileparser import SequenceFileParser
+    p = SequenceFileParser()
+    bad = tmpdir_file + ".bad"
+    open(bad, "w").write(">bad\nA?\n")
+    try:
+        p.parseSeqFile(bad, silent=True)
+    except Exception:
+        pass
+    finally:
+        os.unlink(bad)
+    return p
+
+
 def native_parse(text):
     from localcider.backend.seqfileparser import SequenceFileParser
     fd, path = tempfile.mkstemp(suffix=".seq", prefix="verif_c14_")
     try:
         os.write(fd, text.encode("ascii"))
         os.close(fd)
-        return SequenceFileParser().parseSeqFile(path, silent=True)
+        return reused_parser(path).parseSeqFile(path, silent=True)
     finally:
         os.unlink(path)
 
@@ -209,6 +238,8 @@ def ref_parse(text):
     res = ""
     bad = False
     for line in text.split("\n"):
+        if line != line.strip() and line.strip(" ") != line.strip():
+            return "unspecified", "non-space whitespace at the end of a line"
         st = line.strip(" ")
         if st == "":
             continue
@@ -249,7 +280,7 @@ def replay(cex):
         os.close(fd)
         from localcider.backend.seqfileparser import SequenceFileParser
         try:
-            got = SequenceFileParser().parseSeqFile(path, silent=True)
+            got = reused_parser(path).parseSeqFile(path, silent=True)
         except Exception as ex:
             return status == "ok", "file %r rejected by the parser with %s; reference: %s %r" % (text, type(ex).__name__, status, val)
         if status == "reject":
